@@ -594,7 +594,7 @@ impl Scenario for Pipeline {
     fn meta(&self) -> Meta {
         Meta {
             level: "exploration",
-            rule: "One run = one seeded air picture (1-3 aircraft with positions, identification, velocity, surveillance and Comm-B replies, Mode-AC replies) heard by 1-3 receivers through a lossy radio channel (loss, duplicates, bit flips), each receiver's Beast byte stream delivered with its own latency, chunking style (per frame, random cuts, one byte per read, bursts of 1 kB and more) and network stalls to the real beast::receiver, then through real tokio channels (capacity is a knob) to the real deduplicate_messages, the re-stated main loop around the real decode_position/update_snapshot/store_history, with the TUI task (real update/build_table), GET /all readers (real web::all), lock-holders and the expiry sweep alongside, all tasks interleaved by the seeded scheduler on the simulated clock. Distinct = distinct hash of the ordered poll/timer/read/send/event log. Non-trivial = at least one record reached the table AND at least one fault fired (loss, duplicate, bit flip, stall, non-trivial chunking, back-pressure, lock hold, several runnable tasks at some step).",
+            rule: "One run = one seeded air picture (1-3 aircraft with positions, identification, velocity, surveillance and Comm-B replies, Mode-AC replies) heard by 1-3 receivers through a lossy radio channel (loss, duplicates, bit flips), each receiver's Beast byte stream delivered with its own latency, chunking style (per frame, random cuts, one byte per read, bursts of 1 kB and more) and network stalls to the real beast::receiver, then through real tokio channels (capacity is a knob) to the real deduplicate_messages, main()'s decoding loop around the real decode_position/update_snapshot/store_history, with the TUI task (real update/build_table), GET /all readers (real web::all), lock-holders and the expiry sweep alongside, all tasks interleaved by the seeded scheduler on the simulated clock. Distinct = distinct hash of the ordered poll/timer/read/send/event log. Non-trivial = at least one record reached the table AND at least one fault fired (loss, duplicate, bit flip, stall, non-trivial chunking, back-pressure, lock hold, several runnable tasks at some step).",
             components: vec![
                 ("rs1090::source::beast::receiver + next_msg + process_radarcape", "real (transport through hook H2, clock through hook H3)"),
                 ("tokio::sync::mpsc channels (receivers -> dedup -> main loop)", "real"),
@@ -602,7 +602,9 @@ impl Scenario for Pipeline {
                 ("rs1090 decode_position / Message::from_bytes", "real"),
                 ("jet1090::snapshot::update_snapshot / store_history, filters::Filters::is_in", "real"),
                 ("jet1090::update, table::build_table, web::all, Jet1090 behind Arc<tokio::sync::Mutex>", "real"),
-                ("main loop body (main.rs:494-596), TUI loop, expiry sweep, event reader", "stub (closures inlined in main(), re-stated)"),
+                app::main_loop_component(),
+                ("Source::from_str / Source::serial / sensor::sensors (serials and references per receiver, main.rs:326-333)", "real"),
+                ("TUI loop, expiry sweep, event reader, channel wiring", "stub (closures inlined in main(), re-stated)"),
                 ("aircraft, transponders, radio channel, receivers' firmware, network", "stub (simulated world, independent encoder = ground truth)"),
                 ("tap between the receivers' channel and dedup (80 % of the runs)", "stub (forwarding task that records the arrival order)"),
                 ("tokio runtime / scheduler / clock / terminal", "stub (seeded executor, discrete-event clock, TestBackend)"),
@@ -953,7 +955,7 @@ pub fn execute(plan: &PipelinePlan, prop: &'static str) -> Outcome<PipelinePlan>
         };
         let app = app.clone();
         let sh2 = shared.clone();
-        sim.spawn("main-loop(stub)+decode_position/update_snapshot/store_history(real)", async move {
+        sim.spawn("main-loop+decode_position/update_snapshot/store_history(real)", async move {
             app::main_loop(rx_dedup, app, references, hooks).await;
             sh2.borrow_mut().main_loop_ended = true;
         })
